@@ -103,10 +103,12 @@ def merge(reports):
                 m["worst"][k] = v
         for k, v in r.get("sets", {}).items():
             m["sets"].setdefault(k, set()).update(v)
-        if len(m["samples"]) < 5:
-            m["samples"].extend(r["samples"][:max(1, 5 - len(m["samples"]))])
+        if r["samples"]:
+            m["samples"].append(r["samples"][0])
         m["notes"].extend(r["notes"][:3])
-    m["samples"] = m["samples"][:5]
+    if len(m["samples"]) > 6:         # one sample per shard kind rather than six of the same kind
+        step = len(m["samples"]) / 6.0
+        m["samples"] = [m["samples"][int(i * step)] for i in range(6)]
     return m
 
 
